@@ -18,6 +18,7 @@ CLAIMED = {
  "C18": ("Slicing.tla: bisection indexer, FileView (clamping cursor) and chunker; TLC checks mechanism => IndexExact / ChunksOK on every small grouped file and enumerates every bounded read/seek sequence; each file / sequence is executed on the real index_chroms, FileView and split_file_into_chunks_by_size and judged by TLC", "TLC model checking + replay + TLC observation validation", "4 C18"),
  "C09": ("files written by the real writers from TLC-generated layouts are decoded by an independent codec; TLC evaluates BBIFormat!WellFormed (header/offset/count consistency, chromosome tree, every R-tree incl. containment and Search = LinearScan, block rules) and that the decoded records, summary and zoom records are those of the input", "TLC enumeration/simulation + independent decode + TLC validation of the decoded image", "4 C09"),
  "C10": ("MC_AnyWriter.tla draws well-formed layouts over the cross product of byte order, compression, section types, chromosome-tree and R-tree shapes/placements, versions, summary, zoom; an independent encoder writes them (guarded by TLC: WellFormed(decode(bytes)) and Records = data set); the real plain and caching readers are queried exhaustively and every answer is judged by TLC", "TLC simulation of a nondeterministic writer + independent encode + replay on the readers + TLC observation validation", "4 C10"),
+ "C11": ("Pipeline.tla: every interleaving of source, encode tasks, write_data and the file owner over per-chromosome TempFileBuffers satisfies Deterministic (destination = sections in order), NoStuck and Terminates; the real writers are run per (input, format options) under many configurations with seeded and role-biased delays at the hook points (all switch/write/drop interleaving classes must be reached), the multi-threaded converters against -t 1; TLC judges that all output digests agree", "TLC model checking of the pipeline + delay-injected differential runs judged by TLC", "4 C11"),
  "C12": ("TLC explores every interleaving of TempFileBuffer.tla (safety + liveness under weak fairness), emits every schedule, the real buffer is driven through each and the recorded events are trace-validated by TLC; threaded runs are validated with a linearisation trace spec", "TLC model checking + schedule replay + TLC trace validation (incl. linearisation)", "4 C12"),
  "C13": ("TLC enumerates every small stream (valid, degenerate, invalid); the real writers consume each through iterator/file/parallel sources; TLC judges the outcome with Refusal!RefusalOK", "TLC enumeration + replay + TLC observation validation", "4 C13"),
 }
